@@ -421,6 +421,59 @@ pub fn run(tier: Tier, replay_file: Option<Value>) -> ! {
             break;
         }
     }
+    // ---- line atomicity of the builtin that jobs print with: concurrent jobs (and the foreground) share
+    //      descriptors, so a line written by `echo` must reach the descriptor in ONE write(2), or lines of
+    //      different jobs can interleave inside a line. Observed with strace on the real binary (skipped,
+    //      and said so, where ptrace is not available).
+    {
+        let progs: &[(&str, &str, usize)] = &[
+            ("plain", "echo hello world", 1),
+            ("no-newline", "echo -n nonl", 1),
+            ("in-function", "f() { echo in-func; }; f", 1),
+            ("in-loop", "for i in 1 2 3; do echo \"loop $i\"; done", 3),
+            ("background-jobs", "{ echo job1; } & { echo job2; } & wait", 2),
+            ("job-from-function-in-loop", "lf() { for i in 1 2; do echo \"j$i\" & done; }; lf; wait", 2),
+            ("to-file", "echo filed >out.txt; echo filed2 >>out.txt", 2),
+            ("escapes", "echo -e 'a\\tb'", 1),
+        ];
+        let strace_ok = std::process::Command::new("strace").arg("-V").output().map(|o| o.status.success()).unwrap_or(false);
+        if !strace_ok {
+            rep.assumptions.push("strace is not available here: the one-write-per-echo-line observation was skipped".into());
+        } else {
+            let brush = crate::engine::procs::brush_path();
+            for (name, prog, echos) in progs {
+                let dir = crate::engine::procs::scratch_root().join("c17strace");
+                let _ = std::fs::remove_dir_all(&dir);
+                let _ = std::fs::create_dir_all(&dir);
+                let trace = dir.join("trace.txt");
+                let out = std::process::Command::new("strace")
+                    .args(["-f", "-e", "trace=write", "-s", "200", "-o"])
+                    .arg(&trace)
+                    .arg(&brush)
+                    .args(["--norc", "--noprofile", "-c", prog])
+                    .current_dir(&dir)
+                    .env_clear()
+                    .env("PATH", crate::engine::procs::helper_dir())
+                    .env("LC_ALL", "C.utf8")
+                    .stdout(std::process::Stdio::null())
+                    .stderr(std::process::Stdio::null())
+                    .output();
+                rep.evaluations += 1;
+                let Ok(o) = out else { continue };
+                let t = std::fs::read_to_string(&trace).unwrap_or_default();
+                if !o.status.success() && t.is_empty() {
+                    rep.assumptions.push("strace could not trace the shell here (ptrace denied): the one-write-per-echo-line observation was skipped".into());
+                    break;
+                }
+                // writes whose data is (part of) what the echos print: fd is whatever the shell uses
+                let writes: Vec<&str> = t.lines().filter(|l| l.contains(" write(") && !l.contains("write(2,")).filter(|l| ["hello", "nonl", "in-func", "loop ", "job", "\"j", "filed", "a\\tb", "\"\\n\""].iter().any(|k| l.contains(k))).collect();
+                rep.nontrivial.insert(format!("atomic-echo:{name}"));
+                if writes.len() != *echos {
+                    rep.fail(Failure { case: format!("write(2) calls made for: {prog}"), tags: vec!["echo-line-atomicity".into(), format!("prog:{name}")], expected: format!("{echos} write(2) call(s), one per echo"), observed: format!("{} calls: {}", writes.len(), writes.iter().map(|l| l.split_once("write(").map(|x| x.1).unwrap_or(l)).collect::<Vec<_>>().join(" ; ")), oracle: "one-write-per-line".into() });
+                }
+            }
+        }
+    }
     rep.nontrivial_extra = states;
     rep.set("states", states);
     rep.set("transitions", transitions);
